@@ -30,8 +30,8 @@ ZCUT = 4.4
 
 def gen_cases(tier, seed):
     rng = np.random.default_rng(seed)
-    n_cases = 16 if tier == "quick" else 96
-    return [{"seed": int(rng.integers(1 << 30)), "kind": KINDS[i % len(KINDS)], "n": 2 if i % 3 else 3, "K": 160 if tier == "quick" else 600} for i in range(n_cases)]
+    n_cases = 16 if tier == "quick" else 48
+    return [{"seed": int(rng.integers(1 << 30)), "kind": KINDS[i % len(KINDS)], "n": 2 if i % 3 else 3, "K": 160 if tier == "quick" else 400} for i in range(n_cases)]
 
 
 def _noise(kind, rng):
